@@ -280,8 +280,9 @@ func (g *gen) newHost(i int) HostSpec {
 func Gen(rng *rand.Rand, p Profile) (*Input, []string) {
 	g := &gen{rng: rng, p: p, dupOK: map[string]bool{}, uid: map[string]bool{}, twinSolo: map[string]bool{}}
 	in := &Input{}
-	if rng.Intn(5) == 0 {
-		in.Shards = []int{1, 3, 8}[rng.Intn(3)]
+	if rng.Intn(5) < 2 {
+		// --backend-shards: backends are written in per shard files; one shard puts them all together
+		in.Shards = []int{1, 1, 3, 8}[rng.Intn(4)]
 	}
 	in.StrictHost = rng.Intn(5) == 0
 	in.OldExits = rng.Intn(3) == 0
